@@ -7,7 +7,7 @@ from .c01 import model as c01_model
 
 NBATCH = {'quick': 16, 'thorough': 64}
 BUDGET_S = {'quick': 90, 'thorough': 180}
-PER_BATCH = {'quick': 35, 'thorough': 600}
+PER_BATCH = {'quick': 90, 'thorough': 1500}
 SHAPING = ['token-filtered', 'token-kept-by-bang-or-keep_all', 'none-placeholder', 'rule-inlined', 'expand1', 'alias', 'template-instance']
 FLOORS = {
     'quick': dict({'distinct_nontrivial': 3000, 'corpus': 15, 'judged:earley/basic': 1000, 'judged:earley/dynamic': 1000,
